@@ -27,8 +27,13 @@ def budget(tier):
 
 @st.composite
 def strategy_(draw, tier):
-    prog, dom = draw(gen.entity_program(steer=known.active("shared-network-leak"),
-                                        avoid_nocond=False))
+    if draw(st.integers(0, 7)) == 0:
+        # "balanced loader": every chest enters the total and its own inserter's bundle
+        prog = draw(gen.balanced_program())
+        dom = {s.name: gen.ITEMS for s in prog.stmts if isinstance(s, lang.Decl) and s.kind == "Entity" and s.name.startswith("chest")}
+    else:
+        prog, dom = draw(gen.entity_program(steer=known.active("shared-network-leak"),
+                                            avoid_nocond=False))
     names = list(lang.input_decls(prog))
     n = 4 if tier == "quick" else 8
     vals = draw(gen.valuations(names, n))
@@ -36,7 +41,14 @@ def strategy_(draw, tier):
         for k in v:
             if draw(st.booleans()):
                 v[k] = draw(st.integers(-14, 14))
-    conts = draw(gen.contents_valuations(dom, n))
+    if any(isinstance(s, lang.Decl) and s.name == "total" for s in prog.stmts) and dom and all(k.startswith("chest") for k in dom):
+        # balanced loader: the chests hold the same one or two items in different amounts, so that
+        # "below the average" is true for some chests and false for others
+        items = draw(st.lists(st.sampled_from(gen.ITEMS), min_size=1, max_size=2, unique=True))
+        conts = [{var: {it: draw(st.sampled_from([1, 5, 10, 11, 50, 100, 101, 199, 200, 1000]))
+                        for it in items if draw(st.integers(0, 3)) != 0} for var in dom} for _ in range(n)]
+    else:
+        conts = draw(gen.contents_valuations(dom, n))
     return {"prog": prog, "opts": {}, "vals": vals, "contents": conts, "optimize": draw(st.integers(0, 3)) != 0,
             "sched": {"seed": draw(st.integers(0, 3))}}
 
